@@ -522,3 +522,39 @@ def dmrg_restart(ctx) -> None:
            "an unconverged sweep stores previous_energy ← current_energy before the next sweep" if ok and n >= 1 else
            "an unconverged DMRG sweep does not store its energy as previous_energy: convergence is judged against a stale "
            "(or missing) reference")
+
+
+def autosave_callers(ctx) -> None:
+    """A snapshot is consistent only between two progress() calls: save_simulation is called from the end of progress()
+    and from nowhere else (an exception handler or a signal hook that saves mid-step pickles factors, baths, centre and
+    sweep index that do not belong together, and atomically replaces the last good autosave with it), and the throttle
+    clock last_save_time is written by the driver's constructor and by save_simulation only."""
+    prog = ctx.prog
+    sites = []
+    clock = []
+    n = 0
+    for f in prog.funcs.values():
+        if not f.module.name.startswith(("emu_mps", "emu_base")):
+            continue
+        n += 1
+        for node in util.walk_own(f.node):
+            if isinstance(node, ast.Call) and isinstance(node.func, ast.Attribute) and node.func.attr == "save_simulation":
+                sites.append((f, node))
+            if isinstance(node, (ast.Assign, ast.AugAssign, ast.AnnAssign)):
+                for t in (node.targets if isinstance(node, ast.Assign) else [node.target]):
+                    if isinstance(t, ast.Attribute) and t.attr == "last_save_time":
+                        clock.append((f, node))
+    ctx.require(len(sites) >= 2, f"SAVE-callers: {len(sites)} calls of save_simulation found, 3 confirmed by hand")
+    bad = [f"{f.qualname.split('.', 2)[-1]} (line {node.lineno})" for f, node in sites if f.name != "progress" or f.cls is None]
+    ctx.ob("SAVE-callers", "save_simulation is called from progress() only", sites[0][0].loc(), not bad,
+           f"{len(sites)} call sites, all at the end of a progress() of the driver classes" if not bad else
+           f"save_simulation is also called from {bad[0]}: a snapshot taken anywhere but between two progress() calls can "
+           f"capture a half-finished sweep step and replaces the last consistent autosave")
+    # the clock is only ever set to "now" (the constructor, save_simulation, and resume() restarting it): a value in the
+    # past would force a snapshot at the next call, whatever the state of the sweep
+    badc = [f"{f.qualname.split('.', 2)[-1]} (line {node.lineno}): {util.text(node, 60)}" for f, node in clock
+            if not (isinstance(node, ast.Assign) and util.text(node.value).replace(" ", "") == "time.time()")]
+    ctx.ob("SAVE-callers", "last_save_time is only set to now", (clock[0][0] if clock else sites[0][0]).loc(), not badc and bool(clock),
+           f"all {len(clock)} stores to last_save_time assign time.time()" if not badc and clock else
+           f"last_save_time is set in {badc[0] if badc else 'no place'}: the autosave throttle is bypassed and a snapshot is "
+           f"forced at a point the driver did not choose")
